@@ -2,17 +2,35 @@
 
 (M)  Select.tla: max-min selection on integer points with exact distances (squared Euclidean / Manhattan, rational centroid),
      ties as sets of admissible picks; TLC checks for every small point set, every size and both metrics that the code's
-     lowest-index tie-break yields an admissible selection (ImplIsAdmissible), and that the linear / rank-based forms used for
-     trace validation agree with the set-based definitions.
+     lowest-index tie-break yields an admissible selection (ImplIsAdmissible), that the linear / rank-based forms used for
+     trace validation agree with the set-based definitions, and that admissibility is invariant under translating / scaling
+     the data (AffineInvariant - the licence for judging translated inputs on the logged integer points).
+     Lloyd.tla: KMeans() as an exact rational machine (assignment to a nearest centroid, mean update, restart of empty
+     clusters at any object, stop on the ABSOLUTE 1e-3 centroid movement): on every small point set, every k, every choice
+     of start objects TLC proves PostHolds (labels in range, centroid = mean of its members, every object at a nearest
+     returned centroid), CostMonotone, CapNeedsRestart, StopIsFixedPoint, and REFUTES PostHolds for the two loop variants
+     the model also carries: the pinned tree's test-before-assignment and the relative tolerance 1e-3 max(1, |coordinate|)
+     on data translated by 1e6 (which is indistinguishable on data at the origin: MC_Lloyd_reltol0).
 (C)  replay: every point set TLC enumerated is run through MaxDis and MaxDis_Fast (every size, metrics 0/1), MDC, and - for
-     distinct points - KMeansppCenters and KMeans; validate: seeded integer point sets in general position (3..80 objects x
-     1..6 variables, sizes 1..objects, k <= min(6, objects), initialisers 0..3, three metrics, 1..8 threads).  The harness only
-     logs what the library returned (plus distance RANKS beyond 12 objects and for the cosine metric, centroid*count and the
-     nearest-centroid slack for k-means); TLC validates every selection with Admissible / AdmissibleR, MaxDis = MaxDis_Fast,
-     the k-means bookkeeping, and thread independence against TraceSelect.tla.
+     distinct points - KMeansppCenters and KMeans; a stride of them a second time translated by 1e3 / 1e5 / 1e6 per column
+     (signs mixed) and scaled by 10^0..10^3 (exactly representable: TLC keeps recomputing every distance from the integers);
+     validate: seeded integer point sets in general position (3..80 objects x 1..6 variables, sizes 1..objects,
+     k <= min(6, objects), initialisers 0..3, three metrics, 1..8 threads) and CLASS-DIRECTED sets (INPUT-CLASSES.md):
+     K1 wide / square / n = p +- 1 / one variable, K2 object counts around 8, 16, 32, 64, K3 offsets 1e3, 1e5, 1e6 x K4
+     scales 1e-3..1e3 (pure scale 1e-6..1e6), K5 decimal scales (0.1 k, 0.001 k are not representable), K6 thread counts
+     dividing / not dividing / exceeding the object count, K7 outputs already sized for another k and a point set run
+     again after another shape in the same process, K8 the tie-rich grid sets.  The harness only logs what the library
+     returned (plus distance RANKS beyond 12 objects, for the cosine metric and for translated data, centroid*count in
+     the units of the logged integers with its rounding residual, and the nearest-centroid slack in absolute units);
+     TLC validates every selection with Admissible / AdmissibleR, MaxDis = MaxDis_Fast, the k-means bookkeeping and the
+     nearest-centroid bound 2 sqrt(dim) 1e-3 (ABSOLUTE; translated data add only the representability terms of
+     Affine.tla, functions of the logged offsets / scale), and thread independence against TraceSelect.tla.
+     Hook H6 records every Lloyd iteration of the k-means runs on the enumerated and on tiny seeded sets; TraceLloyd.tla
+     replays them in exact arithmetic (each is a Lloyd step, the loop ends only within 1e-3 or at the cap, the returned
+     labels are the last step's) - deviations there are EXTRA-FINDINGs, not verdicts (the statement is about the result).
 Requests outside the quantifier (more selections than objects, k-means++ on duplicate rows) are never generated.
 """
-import json, os, shutil
+import copy, json, os, shutil
 from concurrent.futures import ThreadPoolExecutor
 from vf import build, tlc, trace
 from vf import run as hrun
@@ -20,19 +38,31 @@ from vf.core import InfraError
 
 LEVEL = "model_checking"
 READY = True
-TECHNIQUE = ("TLC model checking of Select.tla (max-min selection with tie sets on all small integer point sets, both metrics, every size) "
-             "+ TLC trace validation of the selections, k-means labels/centroids and thread-independence flags recorded from the real "
-             "MDC/MaxDis/MaxDis_Fast/KMeansppCenters/KMeans on the TLC-enumerated point sets and on seeded integer point sets")
+TECHNIQUE = ("TLC model checking of Select.tla (max-min selection with tie sets on all small integer point sets, both metrics, every size; invariance under "
+             "translation / scaling) and Lloyd.tla (k-means as an exact rational machine: postcondition, cost monotonicity, refutation of the two broken loop variants) "
+             "+ TLC trace validation of the selections, k-means labels/centroids, thread-independence / reuse flags and every recorded Lloyd iteration from the real "
+             "MDC/MaxDis/MaxDis_Fast/KMeansppCenters/KMeans on the TLC-enumerated point sets, on seeded integer point sets and on class-directed sets "
+             "(shape relations, block boundaries, offsets 1e3..1e6 x scales 1e-3..1e3, thread-count relations, output reuse, in-process histories)")
 LEVEL_TEXT = ("Selection on integer data is model-checked exhaustively within the stated bounds and every selection the real library returned on the "
               "enumerated and on the seeded point sets is re-derived by TLC from the logged integer points (or distance ranks) - greedy-step optimality, "
-              "first pick, distinctness, range, agreement of the two implementations.  The k-means nearest-centroid tolerance part and the cosine metric "
-              "(ranks computed by the harness in double precision) are exploration.")
+              "first pick, distinctness, range, agreement of the two implementations.  The k-means loop is model-checked as an exact machine on all small point sets "
+              "and its recorded iterations on the enumerated / tiny sets are replayed exactly.  The k-means nearest-centroid tolerance part on seeded data "
+              "(slack computed by the harness in double precision, bound and representability terms evaluated by TLC), the cosine metric and the translated / scaled "
+              "selections (ranks computed by the harness in double precision) are exploration.")
 LEVEL_NOTE = ("Trusts TLC, the harness's projection (object numbers, integer points, dense distance ranks computed with the library's own distance "
-              "definitions - C13 pins those -, centroid*count rounding, Euclidean nearest-centroid slack in double precision), hook H3 for the k-means "
-              "iteration count, ASan/UBSan as memory monitor.  5 points on the {0..3}^2 grid are beyond the budget (10.5 million cases): the thorough tier "
-              "checks 3..5 points on {0..2}^2 and 3..4 points on {0..3}^2.")
+              "definitions on the matrix the library sees - C13 pins those -, centroid*count back-transformed in extended precision, Euclidean nearest-centroid "
+              "slack in double precision), hooks H3 (iteration count) and H6 (Lloyd iterations), ASan/UBSan as memory monitor.  5 points on the {0..3}^2 grid are "
+              "beyond the budget (10.5 million cases): the thorough tier checks 3..5 points on {0..2}^2 and 3..4 points on {0..3}^2; Lloyd.tla: 3 points (quick), "
+              "4 points (thorough) up to the order of the objects.  Input classes left out because the quantifier excludes them: K9 (the statement does not mention "
+              "missing values), K10 (labels are outputs; there is no label input), K8 beyond what TLC enumerates (duplicate rows / exact ties are not 'general position': "
+              "they are covered on the enumerated grid sets with tie SETS, never on seeded data), constant columns (K5/K8: not general position), selection vectors "
+              "that are not empty on entry (K7: the routines append by design), k-means++ / MaxDis_Fast with more selections than objects, per-column unit systems "
+              "(the Euclidean geometry is not equivariant under them), offsets beyond 1e6 at a 1e-3 resolution (the rounded centroid sum would stop being unambiguous).  "
+              "K6: the five routines take the thread count as a parameter (1..8 by the quantifier; generated dividing / not dividing / exceeding the object count) and reach no "
+              "MT_* kernel, so the forced processor count (hook H2) is immaterial and pinned to 1.")
 
 WORKERS = int(os.environ.get("VERIF_WORKERS", "6"))
+LLOYD = ("KmStart", "KmInit", "KmIt", "KmEnd")
 
 
 # ---------------------------------------------------------------- naming a rejected event (the verdict is TLC's)
@@ -61,6 +91,10 @@ def _ctxmap(events):
     return m
 
 
+def _is_aff(pts):
+    return bool(pts) and (any(pts.get("off", [])) or pts.get("sexp", 0) != 0)
+
+
 def _sel_reason(e, c):
     X = c["pts"]["X"]
     N, seq, met = len(X), e["seq"], e["metric"]
@@ -76,7 +110,12 @@ def _sel_reason(e, c):
         c2 = [sum((N * p[j] - S[j]) ** 2 for j in range(len(p))) for p in X]
     else:
         c2 = c["c"]
-    if c2 is None or c2[seq[0] - 1] != max(c2):
+    if c2 is None:
+        return "first"
+    if not usex and _is_aff(c["pts"]):
+        if c2[seq[0] - 1] < 0.999 * max(c2):        # naming only: TLC applied the exact tolerance
+            return "first"
+    elif c2[seq[0] - 1] != max(c2):
         return "first"
     D = (lambda i, j: _dist(met, X, i, j)) if usex else (lambda i, j: c["R"][met][i][j])
     mt = [D(i, seq[0] - 1) for i in range(N)]
@@ -91,6 +130,8 @@ def _sel_reason(e, c):
         p = c["prev"]
         if p is None or p["metric"] != met or p["n"] != e["n"] or p["seq"] != seq:
             return "agree"
+    if not usex and _is_aff(c["pts"]) and c2[seq[0] - 1] != max(c2):
+        return "first"
     return "tie"
 
 
@@ -105,34 +146,48 @@ def _km_reason(e, c):
             return "centroid"
         if mem and any(e["cnum"][cl][j] != sum(X[i][j] for i in mem) for j in range(len(X[0]))):
             return "centroid"
-    if e["cerr"] > 1000:
+    if _is_aff(c["pts"]):
+        if e["slack"] <= 2 * 1000 * len(X[0]) ** 0.5:       # naming only: inside the bound -> it was the mean residual
+            return "centroid"
+    elif e["cerr"] > 1000:
         return "centroid"
     return "nearest"
+
+
+def _where(pts):
+    if not pts:
+        return "?"
+    s = "point set %s (%dx%d)" % (pts["id"], len(pts["X"]), len(pts["X"][0]))
+    if _is_aff(pts):
+        s += " handed over as off + x*10^%d, off=%s" % (pts.get("sexp", 0), pts.get("off"))
+    if pts.get("hist"):
+        s += " [history step %d]" % pts["hist"]
+    return s
 
 
 def _sig(e, cm):
     c = cm.get(id(e))
     k = e["e"]
-    pid = c["pts"]["id"] if c and c["pts"] else "?"
-    shape = "%dx%d" % (len(c["pts"]["X"]), len(c["pts"]["X"][0])) if c and c["pts"] else "?"
+    pts = c["pts"] if c else None
+    where = _where(pts)
     if k == "Sel":
         why = _sel_reason(e, c)
         what = {"range": "does not hold the requested number of in-range object numbers", "distinct": "holds an object twice",
                 "first": "first element is not an object farthest from the centroid", "greedy": "an element does not maximise the minimum distance to the objects chosen before it",
                 "agree": "MaxDis_Fast differs from MaxDis", "tie": "tie-break differs"}[why]
-        return "SELECT:%s:%s" % (e["method"], why), "point set %s (%s) metric %d n=%d threads=%d: %s returned %s: %s" % (pid, shape, e["metric"], e["n"], e["th"], e["method"], e["seq"], what)
+        return "SELECT:%s:%s" % (e["method"], why), "%s metric %d n=%d threads=%d: %s returned %s: %s" % (where, e["metric"], e["n"], e["th"], e["method"], e["seq"], what)
     if k == "Km":
         why = _km_reason(e, c)
         what = {"labels": "a label is outside 0..k-1", "centroid": "a centroid is not the mean of the objects carrying its label",
-                "nearest": "an object is not labelled by a nearest centroid within 2 sqrt(dim) 1e-3 (slack %.6f)" % (e["slack"] * 1e-6)}[why]
-        return "KMEANS:%s" % why, "point set %s (%s) k=%d initialiser=%d threads=%d: %s" % (pid, shape, e["k"], e["init"], e["th"], what)
+                "nearest": "an object is not labelled by a nearest centroid within 2 sqrt(dim) 1e-3 absolute (slack %s%.6f)" % (">= " if e["slack"] >= 40000 else "", e["slack"] * 1e-6)}[why]
+        return "KMEANS:%s" % why, "%s k=%d initialiser=%d threads=%d%s: %s" % (where, e["k"], e["init"], e["th"], " (outputs reused)" if e.get("reuse") else "", what)
     if k == "KmTh":
-        return "KMEANS:threads", "point set %s (%s) k=%d initialiser=%d: labels/centroids with %d threads differ from the one-thread run" % (pid, shape, e["k"], e["init"], e["th"])
+        return "KMEANS:threads", "%s k=%d initialiser=%d: labels/centroids with %d threads differ from the one-thread run" % (where, e["k"], e["init"], e["th"])
     if k == "Crash":
         call = e.get("call", "?")
         name = call.split("(")[0]
         area = "KMEANS" if name == "KMeans" else "SELECT:%s" % name
-        return "%s:crash" % area, "point set %s (%s): %s %s" % (pid, shape, call, "did not return within the watchdog" if e.get("rc") == 124 else "died (rc=%s)" % e.get("rc"))
+        return "%s:crash" % area, "%s: %s %s" % (where, call, "did not return within the watchdog" if e.get("rc") == 124 else "died (rc=%s)" % e.get("rc"))
     return "SELECT:trace:%s" % k, "unexpected event %s" % json.dumps(e)[:200]
 
 
@@ -141,8 +196,8 @@ def _pts_line(i, c):
     return "%d %d %d %d %s\n" % (i, len(X), len(X[0]), c["distinct"], " ".join(str(v) for row in X for v in row))
 
 
-def _run_harness(exe, jobs, what):
-    res = hrun.run_many(exe, jobs, timeout=2400, workers=WORKERS)
+def _run_harness(exe, jobs, what, workers=None):
+    res = hrun.run_many(exe, jobs, timeout=2400, workers=workers or WORKERS)
     events, errs = [], []
     for j, h in zip(jobs, res):
         ev = hrun.read_ndjson(j[0])
@@ -168,6 +223,26 @@ def _chunks(events, parts):
     if cur:
         out.append(cur)
     return out
+
+
+def _split(events):
+    """-> (events for TraceSelect incl. the Hist verdict events of class K7, events for TraceLloyd)"""
+    sel, ll = [], []
+    blocks = tlc.split_blocks(events)
+    first = {}
+    for b in blocks:
+        pts = b[1] if len(b) > 1 and b[1]["e"] == "Points" else None
+        s = [e for e in b if e["e"] not in LLOYD]
+        if pts is not None and pts.get("hist") == 1:
+            first[pts["id"]] = [e for e in s[2:] if e["e"] != "Crash"]
+        if pts is not None and pts.get("hist") == 3 and pts["id"] in first:
+            # class K7: the point set run again after another shape in the same process must return what it returned first
+            s.append(dict(e="Hist", same=1 if [e for e in s[2:] if e["e"] != "Crash"] == first.pop(pts["id"]) else 0))
+        sel += s
+        crashed = any(e["e"] == "Crash" for e in b)
+        if pts is not None and any(e["e"] == "KmStart" for e in b) and not crashed:
+            ll += [e for e in b if e["e"] in ("Reset", "Points") + LLOYD]
+    return sel, ll
 
 
 def _validate(ctx, events, san_text, label, replay_of, parts):
@@ -200,30 +275,288 @@ def _validate(ctx, events, san_text, label, replay_of, parts):
     return rej
 
 
+def _lloyd_reason(e, block):
+    k = e["e"]
+    if k == "KmEnd":
+        return "stop", "KMeans() returned although a centroid coordinate moved by more than the documented 1e-3 in its last iteration (or the returned labels / iteration count are not the last step's)"
+    if k == "KmIt":
+        return "step", "a recorded iteration is not an assignment-to-a-nearest-centroid / mean-update step of the previous centroids"
+    if k == "KmInit":
+        return "start", "the centroids of the first assignment step are not rows of the data set"
+    return "trace", "unexpected %s event" % k
+
+
+def _validate_lloyd(ctx, events, label, parts):
+    """the Lloyd layer is not in C17's statement: a rejection is an EXTRA-FINDING, never a verdict"""
+    if not events:
+        return 0
+    chunks = _chunks(events, parts)
+
+    def on_reject(e, idx, block):
+        if e["e"] in ("Points", "Reset"):
+            raise InfraError("harness projection rejected by TraceLloyd (%s): %s" % (e["e"], json.dumps(e)[:300]))
+        why, what = _lloyd_reason(e, block)
+        pts = next((x for x in block if x["e"] == "Points"), None)
+        st = None
+        for x in block:
+            if x["e"] == "KmStart":
+                st = x
+            if x is e:
+                break
+        ctx.extra("KMEANS:lloyd:%s" % why, "%s%s: %s (event %s)" % (_where(pts), " k=%d initialiser=%d" % (st["k"], st["init"]) if st else "", what, json.dumps(e)[:160]))
+        return "dup"
+
+    def one(a):
+        i, ch = a
+        return trace.check_trace(ctx, "TraceLloyd", "Trace_Lloyd.cfg", "Trace_Lloyd_prop.cfg", ch, on_reject, drop="block", label="%s_%d" % (label, i), max_rounds=8)
+    with ThreadPoolExecutor(max(1, min(WORKERS, len(chunks)))) as ex:
+        rej = sum(ex.map(one, enumerate(chunks)))
+    ctx.traces(sum(1 for e in events if e["e"] == "KmStart"))
+    return rej
+
+
+# ---------------------------------------------------------------- evidence accounting: cases and input classes
+def _shape_tags(pts):
+    n, d = len(pts["X"]), len(pts["X"][0])
+    t = []
+    if d == 1:
+        t.append("K1:single-variable")
+    if n < d:
+        t.append("K1:wide")
+    elif n == d:
+        t.append("K1:square")
+    elif n == d + 1:
+        t.append("K1:n=p+1")
+    else:
+        t.append("K1:tall")
+    if n == d - 1:
+        t.append("K1:n=p-1")
+    if n % 32 == 0:
+        t.append("K2:n=32m")
+    elif n % 32 in (1, 31):
+        t.append("K2:n=32m+-1")
+    elif n % 8 == 0:
+        t.append("K2:n=8m")
+    elif n % 8 in (1, 7) and n > 8:
+        t.append("K2:n=8m+-1")
+    off = max([abs(v) for v in pts.get("off", [0])] or [0])
+    sexp = pts.get("sexp", 0)
+    if off:
+        t.append("K3:offset=1e%d" % (len(str(off)) - 1))
+        if any(v == 0 for v in pts["off"]) or len({v for v in pts["off"]}) > 1:
+            t.append("K3:mixed-columns")
+    if sexp:
+        t.append("K4:scale=1e%d" % sexp)
+    if sexp < 0:
+        t.append("K5:decimal-values")
+    if pts.get("shifted"):
+        t.append("K3:farthest-object-at-origin")
+    if pts.get("grid"):
+        t.append("K8:tied-distances")
+        if not pts.get("distinct"):
+            t.append("K8:duplicate-rows")
+    if pts.get("hist"):
+        t.append("K7:history-%s" % {1: "first", 2: "other-shape", 3: "again"}[pts["hist"]])
+    if pts.get("tiny"):
+        t.append("K1:tiny-exact-lloyd")
+    if pts.get("corner"):
+        t.append("K3:far-corner-offset/resolution>=1e7")
+    return t
+
+
+def _th_tag(n, th):
+    if th == 1:
+        return "K6:threads=1"
+    if th > n:
+        return "K6:threads>objects"
+    return "K6:threads-dividing" if n % th == 0 else "K6:threads-not-dividing"
+
+
 def _account(ctx, events, tag):
-    cur = None
+    cur, tags, n = None, [], 0
     for e in events:
         k = e["e"]
         if k == "Points":
-            cur = (tag, e["id"], e.get("shifted", 0))
-        elif k == "Sel":
+            cur = (tag, e["id"], e.get("shifted", 0), e.get("sexp", 0), tuple(e.get("off", ())), e.get("hist", 0))
+            tags, n = _shape_tags(e), len(e["X"])
+            continue
+        extra = []
+        if k == "Sel":
             ctx.case(("S", cur, e["method"], e["metric"], e["n"], e["th"]), e["n"] >= 2)
+            extra = [_th_tag(n, e["th"])] + (["K1:size=1"] if e["n"] == 1 else []) + (["K1:size=objects"] if e["n"] == n else [])
         elif k == "Km":
-            ctx.case(("K", cur, e["k"], e["init"]), e["k"] >= 2)
+            ctx.case(("K", cur, e["k"], e["init"], e.get("reuse", 0)), e["k"] >= 2)
+            extra = ["K1:k=1"] if e["k"] == 1 else (["K1:k=max"] if e["k"] == min(6, n) else [])
+            if e.get("reuse"):
+                extra.append("K7:reused-outputs")
         elif k == "KmTh":
             ctx.case(("T", cur, e["k"], e["init"], e["th"]), e["k"] >= 2)
+            extra = [_th_tag(n, e["th"])]
+        elif k == "KmRe":
+            ctx.case(("R", cur, e["k"], e["init"]), e["k"] >= 2)
+            extra = ["K7:reused-outputs"]
+        elif k == "Hist":
+            ctx.case(("H", cur), True)
+        elif k == "KmEnd":
+            ctx.case(("L", cur, e.get("_k"), e.get("_init")), True)
+        else:
+            continue
+        for t in tags + extra:
+            ctx.cls(t)
 
 
-def run(ctx):
-    ctx.assumptions += [
-        "TLC enumerates point sets only within the stated bounds (quick: 4 points on {0..2}^2, the half with even coordinate sum is replayed; thorough: 3..5 points on {0..2}^2 - every fifth by coordinate sum is replayed - and 3..4 points on {0..3}^2)",
-        "the harness logs object numbers, integer points and - beyond 12 objects and for the cosine metric - dense ranks of the distances computed with the library's own distance definitions; TLC re-derives first pick, greedy optimality, distinctness, range and MaxDis = MaxDis_Fast from them",
-        "k-means: centroid*count is rounded by the harness (residual logged), the Euclidean nearest-centroid slack is computed by the harness in double precision; TLC checks labels, member counts, exact member sums and the bound 2 sqrt(dim) 1e-3; runs that hit the 100-iteration cap are not judged on the slack (this tolerance part is exploration)",
-        "requests outside the quantifier (more selections than objects, k-means++ with duplicate rows) are never generated",
-        "all library calls for a point set run in one child process under ASan/UBSan with a watchdog",
-    ]
-    q = ctx.quick
-    # ---- (M)
+_PENDING = []
+
+
+def _binding(ctx, module, cfg, blk, corrupt, label):
+    if blk is None:
+        raise InfraError("binding self-test %s: the recording holds no block to corrupt (a class of the generator disappeared)" % label)
+    _PENDING.append(lambda: trace.binding_selftest(ctx, module, cfg, blk, corrupt, label))
+
+
+def _run_pending():
+    todo = list(_PENDING)
+    del _PENDING[:]
+    with ThreadPoolExecutor(max(1, min(WORKERS, len(todo) or 1))) as ex:
+        for f in [ex.submit(t) for t in todo]:
+            f.result()          # an InfraError of a self-test (binding lost) propagates
+
+
+def _first(ev, pred):
+    for e in ev:
+        if pred(e):
+            return e
+    return None
+
+
+def _selftests(ctx, sel_rand, sel_cls, ll):
+    """corrupt one recorded field per event kind: TLC must reject"""
+    P, I = "Trace_Select_prop.cfg", "Trace_Select.cfg"
+    blk = next((b for b in tlc.split_blocks(sel_rand) if b[1]["e"] == "Points" and b[1]["exact"] == 1 and len(b[1]["X"]) >= 5
+                and any(e["e"] == "Sel" and e["method"] == "MaxDis" and e["n"] >= 3 for e in b) and any(e["e"] == "Km" and e["k"] >= 2 for e in b)), None)
+    if blk is not None:
+        def corrupt_sel(ev):
+            e = _first(ev, lambda e: e["e"] == "Sel" and e["method"] == "MaxDis" and e["n"] >= 3)
+            e["seq"][0], e["seq"][1] = e["seq"][1], e["seq"][0]
+            return True
+        _binding(ctx, "TraceSelect", P, blk, corrupt_sel, "binding_selection")
+
+        def corrupt_km(ev):
+            _first(ev, lambda e: e["e"] == "Km" and e["k"] >= 2)["cnum"][0][0] += 1
+            return True
+        _binding(ctx, "TraceSelect", P, blk, corrupt_km, "binding_kmeans")
+    blocks = tlc.split_blocks(sel_cls)
+    aff = next((b for b in blocks if b[1]["e"] == "Points" and _is_aff(b[1]) and len(b[1]["X"]) >= 5
+                and any(e["e"] == "Km" and e["k"] >= 2 and e["conv"] == 1 for e in b) and any(e["e"] == "Sel" and e["method"] == "MaxDis" and e["n"] >= 2 for e in b)), None)
+
+    def c_slack(ev):        # just beyond 2 sqrt(6) 1e-3 + the largest representability term: the ABSOLUTE bound must bite whatever the offset
+        _first(ev, lambda e: e["e"] == "Km" and e["k"] >= 2 and e["conv"] == 1)["slack"] = 5100
+        return True
+    _binding(ctx, "TraceSelect", P, aff, c_slack, "binding_affine_slack")
+
+    def c_cres(ev):
+        e = _first(ev, lambda e: e["e"] == "Km" and e["k"] >= 2)
+        e["cres"][[i for i, c in enumerate(e["cnt"]) if c > 0][0]] += 100000000
+        return True
+    _binding(ctx, "TraceSelect", P, aff, c_cres, "binding_affine_mean")
+
+    def c_first(ev):
+        c = _first(ev, lambda e: e["e"] == "Ranks")["c"]
+        e = _first(ev, lambda e: e["e"] == "Sel" and e["method"] == "MaxDis" and e["n"] >= 2)
+        lo = c.index(min(c)) + 1
+        j = e["seq"].index(lo) if lo in e["seq"] else None
+        if j is not None:
+            e["seq"][j] = e["seq"][0]
+        e["seq"][0] = lo
+        return True
+    _binding(ctx, "TraceSelect", P, aff, c_first, "binding_affine_first")
+
+    def c_off(ev):          # an offset the specification's arithmetic does not admit must be refused, not silently accepted
+        ev[1]["off"][0] = 2000000
+        return True
+    _binding(ctx, "TraceSelect", P, aff, c_off, "binding_affine_offset")
+    re_blk = next((b for b in blocks if any(e["e"] == "KmRe" for e in b)), None)
+
+    def c_re(ev):
+        _first(ev, lambda e: e["e"] == "KmRe")["same"] = 0
+        return True
+    _binding(ctx, "TraceSelect", I, re_blk, c_re, "binding_reuse")
+    h_blk = next((b for b in blocks if any(e["e"] == "Hist" for e in b)), None)
+
+    def c_hist(ev):
+        _first(ev, lambda e: e["e"] == "Hist")["same"] = 0
+        return True
+    _binding(ctx, "TraceSelect", I, h_blk, c_hist, "binding_history")
+    # ---- Lloyd iterations
+    LP = "Trace_Lloyd_prop.cfg"
+    lb = next((b for b in tlc.split_blocks(ll) if any(e["e"] == "KmStart" and e["k"] >= 2 for e in b)), None)
+
+    def upto(ev, pred):     # keep the block up to and including the first complete run that satisfies pred
+        out, run, ok = [], [], False
+        for e in ev:
+            if e["e"] in ("Reset", "Points"):
+                out.append(e)
+                continue
+            run.append(e)
+            if e["e"] == "KmEnd":
+                if pred(run):
+                    return out + run
+                run = []
+        return None
+
+    def c_label(ev):
+        r = upto(ev, lambda run: run[0]["k"] >= 2)
+        ev[:] = r
+        e = _first(ev, lambda e: e["e"] == "KmIt")
+        e["labels"][0] = (e["labels"][0] + 1) % _first(ev, lambda e: e["e"] == "KmStart")["k"]
+        return True
+    _binding(ctx, "TraceLloyd", LP, lb, c_label, "binding_lloyd_step")
+
+    def c_end(ev):
+        _first(ev, lambda e: e["e"] == "KmEnd")["iters"] += 1
+        return True
+    _binding(ctx, "TraceLloyd", LP, lb, c_end, "binding_lloyd_end")
+
+    def c_init(ev):
+        _first(ev, lambda e: e["e"] == "KmInit")["obj"][0] = 0
+        return True
+    _binding(ctx, "TraceLloyd", LP, lb, c_init, "binding_lloyd_start")
+
+    def c_start(ev):
+        _first(ev, lambda e: e["e"] == "KmStart")["k"] = len(ev[1]["X"]) + 1
+        return True
+    _binding(ctx, "TraceLloyd", LP, lb, c_start, "binding_lloyd_k")
+    multi = next((b for b in tlc.split_blocks(ll) if upto(b, lambda run: sum(1 for e in run if e["e"] == "KmIt") >= 2 and run[0]["k"] >= 2) is not None), None)
+
+    def c_stop(ev):         # a run cut short while its centroids still moved: the stopping rule must reject it
+        r = upto(ev, lambda run: sum(1 for e in run if e["e"] == "KmIt") >= 2 and run[0]["k"] >= 2)
+        its = [i for i, e in enumerate(r) if e["e"] == "KmIt"]
+        last_run_start = max(i for i, e in enumerate(r) if e["e"] == "KmStart")
+        its = [i for i in its if i > last_run_start]
+        end = r[-1]
+        end["iters"] = len(its) - 1
+        end["labels"] = list(r[its[-2]]["labels"])
+        del r[its[-1]]
+        ev[:] = r
+        return True
+    _binding(ctx, "TraceLloyd", LP, multi, c_stop, "binding_lloyd_stop")
+    _run_pending()
+
+
+def _tag_lloyd(ll):
+    cur = None
+    for e in ll:
+        if e["e"] == "KmStart":
+            cur = e
+        elif e["e"] == "KmEnd" and cur is not None:
+            e["_k"], e["_init"] = cur["k"], cur["init"]
+
+
+def _untag(ll):
+    return [{k: v for k, v in e.items() if not k.startswith("_")} for e in ll]
+
+
+def _model(ctx, q):
     r0 = tlc.run("Select", "MC_Select_forms.cfg", workers=WORKERS, timeout=1500)
     ctx.add_tlc(r0, "mc_select_forms")
     if not r0.ok:
@@ -243,13 +576,62 @@ def run(ctx):
         ctx.add_tlc(r3, "mc_select_grid3")
         if not r3.ok:
             raise InfraError("Select.tla (grid 3): invariant %s fails in the model itself:\n%s" % (r3.violation, r3.trace_text[:1500]))
+    # ---- k-means as an exact machine
+    holds = ["MC_Lloyd_quick.cfg", "MC_Lloyd_reltol0.cfg"] + ([] if q else ["MC_Lloyd_thorough.cfg", "MC_Lloyd_thorough_s3.cfg"])
+    states = 0
+    for cfg in holds:
+        rl = tlc.run("Lloyd", cfg, workers=WORKERS, timeout=3000)
+        ctx.add_tlc(rl, "mc_" + cfg[3:-4].lower())
+        if not rl.ok:
+            raise InfraError("Lloyd.tla (%s): invariant %s fails in the model itself:\n%s" % (cfg, rl.violation, rl.trace_text[:1500]))
+        if rl.zero_actions():
+            raise InfraError("Lloyd.tla (%s): actions never taken: %s" % (cfg, rl.zero_actions()))
+        states += rl.distinct
+    for cfg, why in (("MC_Lloyd_whiledo.cfg", "the pinned tree's loop (test before the first assignment)"), ("MC_Lloyd_reltol.cfg", "the relative tolerance on data translated by 1e6")):
+        rl = tlc.run("Lloyd", cfg, workers=WORKERS, timeout=1500)
+        ctx.add_tlc(rl, "mc_" + cfg[3:-4].lower() + "_refuted")
+        if rl.ok or rl.violation != "PostHolds":
+            raise InfraError("Lloyd.tla no longer refutes %s (%s): the model lost the distinction it exists for" % (why, cfg))
+    ctx.note("model: Lloyd.tla %d states: PostHolds / CostMonotone / CapNeedsRestart / StopIsFixedPoint hold; both broken loop variants refuted" % states)
     ctx.cov["exhaustive"] = True
-    # ---- (C)
+    return sets
+
+
+def run(ctx):
+    ctx.assumptions += [
+        "TLC enumerates point sets only within the stated bounds (quick: 4 points on {0..2}^2, the half with even coordinate sum is replayed; thorough: 3..5 points on {0..2}^2 - every fifth by coordinate sum is replayed - and 3..4 points on {0..3}^2); Lloyd.tla: 3 (thorough: 4) points on {0..2}^2 up to the order of the objects, every k, every choice of start objects",
+        "the harness logs object numbers, integer points and - beyond 12 objects, for the cosine metric and for translated / scaled data - dense ranks of the distances computed with the library's own distance definitions on the matrix the library sees; TLC re-derives first pick, greedy optimality, distinctness, range and MaxDis = MaxDis_Fast from them",
+        "translated / scaled inputs are off_j + x_ij * 10^sexp with x integer: TLC judges on x (Select.tla: AffineInvariant); the first pick on such data is accepted within FirstTolQ of the largest logged centroid distance, centroid*count within TolMeanAff of the integer member sum (both functions of the logged offsets, scale and ranges, Affine.tla)",
+        "k-means: centroid*count is rounded by the harness (residual logged), the Euclidean nearest-centroid slack is computed by the harness in double precision; TLC checks labels, member counts, exact member sums and the ABSOLUTE bound 2 sqrt(dim) 1e-3 (+ RepSlack6 for translated data); runs that hit the 100-iteration cap are not judged on the slack (this tolerance part is exploration)",
+        "the recorded Lloyd iterations (hook H6) are replayed exactly only for the enumerated grid sets and tiny seeded sets (3..7 objects, |x| <= 20), and not for decimal scales at offset 1e6; deviations on that layer are EXTRA-FINDINGs",
+        "requests outside the quantifier (more selections than objects, k-means++ with duplicate rows) are never generated",
+        "all library calls for a point set (a three-step history in class K7) run in one child process under ASan/UBSan with a watchdog",
+    ]
+    q = ctx.quick
     lib = build.build_lib("san")
     exe = build.build_harness("c17", ["c17_drv.c"], lib)
     rd = tlc.rundir()
+    bg = ThreadPoolExecutor(1)
     try:
         P = WORKERS
+        # the seeded and the class-directed recordings do not depend on the model run: record them (two processes) while TLC works
+        nrand = 36 if q else 720
+        per = (nrand + P - 1) // P
+        jobs_rand = [[os.path.join(rd, "rand%d.ndjson" % p), "rand", ctx.seed, p * per, min(per, nrand - p * per)] for p in range(P) if p * per < nrand]
+        ncls = 60 if q else 600
+        per = (ncls + P - 1) // P
+        jobs_cls = [[os.path.join(rd, "cls%d.ndjson" % p), "cls", ctx.seed, p * per, min(per, ncls - p * per)] for p in range(P) if p * per < ncls]
+        ncor = 48 if q else 480
+        per = (ncor + P - 1) // P
+        jobs_cor = [[os.path.join(rd, "cor%d.ndjson" % p), "corner", ctx.seed, p * per, min(per, ncor - p * per)] for p in range(P) if p * per < ncor]
+        fut = bg.submit(lambda: _run_harness(exe, jobs_rand, "rand", 2) + _run_harness(exe, jobs_cls, "cls", 2) + _run_harness(exe, jobs_cor, "corner", 2))
+        # ---- (M)
+        try:
+            sets = _model(ctx, q)
+        except BaseException:
+            fut.cancel()
+            raise
+        # ---- (C)
         jobs = []
         for p in range(P):
             fn = os.path.join(rd, "pts%d.txt" % p)
@@ -257,71 +639,99 @@ def run(ctx):
                 for i, c in enumerate(sets):
                     if i % P == p:
                         f.write(_pts_line(i, c))
-            # quick: reduced call set per point set and k-means on every 64th distinct point set; thorough: everything, k-means on every 16th
-            jobs.append([os.path.join(rd, "grid%d.ndjson" % p), "grid", fn, ctx.seed, 64 if q else 16, 0 if q else 1])
+            # quick: reduced call set per point set and k-means on every 64th distinct point set; thorough: everything, k-means on every 16th;
+            # every 32nd (16th) point set a second time translated / scaled up
+            jobs.append([os.path.join(rd, "grid%d.ndjson" % p), "grid", fn, ctx.seed, 64 if q else 16, 0 if q else 1, 32 if q else 16])
         ev_grid, san1 = _run_harness(exe, jobs, "grid")
-        if sum(1 for e in ev_grid if e["e"] == "Points") != len(sets):
-            raise InfraError("replay: %d point sets sent, %d reported" % (len(sets), sum(1 for e in ev_grid if e["e"] == "Points")))
-        nrand = 36 if q else 720
-        per = (nrand + P - 1) // P
-        jobs = [[os.path.join(rd, "rand%d.ndjson" % p), "rand", ctx.seed, p * per, min(per, nrand - p * per)] for p in range(P) if p * per < nrand]
-        ev_rand, san2 = _run_harness(exe, jobs, "rand")
-        _account(ctx, ev_grid, "grid")
-        _account(ctx, ev_rand, "rand")
-        kms = [e for e in ev_grid + ev_rand if e["e"] == "Km"]
-        km_crashed = any(e["e"] == "Crash" and e.get("call", "").startswith("KMeans(") for e in ev_grid + ev_rand)
+        if sum(1 for e in ev_grid if e["e"] == "Points" and not _is_aff(e)) != len(sets):
+            raise InfraError("replay: %d point sets sent, %d reported" % (len(sets), sum(1 for e in ev_grid if e["e"] == "Points" and not _is_aff(e))))
+        ev_rand, san2, ev_cls, san3, ev_cor, san4 = fut.result()
+        sel_grid, ll_grid = _split(ev_grid)
+        sel_rand, _ = _split(ev_rand)
+        sel_cls, ll_cls = _split(ev_cls)
+        sel_cor, _ = _split(ev_cor)
+        ll = ll_grid + ll_cls
+        _tag_lloyd(ll)
+        _account(ctx, sel_grid, "grid")
+        _account(ctx, sel_rand, "rand")
+        _account(ctx, sel_cls, "cls")
+        _account(ctx, sel_cor, "corner")
+        _account(ctx, ll, "lloyd")
+        ll = _untag(ll)
+        allsel = sel_grid + sel_rand + sel_cls + sel_cor
+        kms = [e for e in allsel if e["e"] == "Km"]
+        km_crashed = any(e["e"] == "Crash" and e.get("call", "").startswith("KMeans(") for e in allsel)
         if (not kms or not any(e["iters"] > 0 for e in kms)) and not km_crashed:
             raise InfraError("no k-means iteration was observed: hook H3 (getLabels_) is not firing")
+        nit = sum(1 for e in ll if e["e"] == "KmIt")
+        if nit == 0 and not km_crashed:
+            raise InfraError("no Lloyd iteration was recorded: hook H6 (VERIF_STATE in KMeans) is not firing")
+        # vacuity of the new classes: the generator must really have produced them
+        affpts = [e for e in sel_cls if e["e"] == "Points" and _is_aff(e)]
+        need = {"K3 offset 1e6": any(max(abs(v) for v in e["off"]) == 1000000 for e in affpts), "K3 offset 1e3": any(max(abs(v) for v in e["off"]) == 1000 for e in affpts),
+                "K4 scale < 1": any(e["sexp"] < 0 for e in affpts), "K4 scale > 1": any(e["sexp"] > 0 for e in affpts),
+                "translated grid set": any(e["e"] == "Points" and _is_aff(e) for e in sel_grid), "K7 history": any(e["e"] == "Hist" for e in sel_cls),
+                "K7 reuse": any(e["e"] == "KmRe" for e in sel_cls), "K1 wide": any(e["e"] == "Points" and len(e["X"]) < len(e["X"][0]) for e in sel_cls),
+                "tiny set with Lloyd iterations": any(e["e"] == "Points" and e.get("tiny") for e in ll_cls),
+                "K3 x K4 far corner": any(e.get("corner") for e in affpts) and any(e["e"] == "Km" for e in sel_cor)}
+        if not all(need.values()) and not any(e["e"] == "Crash" for e in allsel):
+            raise InfraError("class-directed generator no longer emits: %s" % [k for k, v in need.items() if not v])
         ctx.steps["kmeans_runs"] = len(kms)
+        ctx.steps["kmeans_runs_on_translated_or_scaled_data"] = sum(1 for b in tlc.split_blocks(allsel) if len(b) > 1 and b[1]["e"] == "Points" and _is_aff(b[1]) for e in b if e["e"] == "Km")
         ctx.steps["kmeans_iteration_cap_reached"] = sum(1 for e in kms if e["conv"] != 1)
         ctx.steps["kmeans_runs_with_empty_cluster"] = sum(1 for e in kms if e["empty"])
-        ctx.steps["child_crashes"] = sum(1 for e in ev_grid + ev_rand if e["e"] == "Crash")
-        ctx.steps["point_sets"] = dict(grid=len(sets), seeded=sum(1 for e in ev_rand if e["e"] == "Points" and not e.get("shifted")))
+        ctx.steps["lloyd_runs_replayed"] = sum(1 for e in ll if e["e"] == "KmStart")
+        ctx.steps["lloyd_iterations_replayed"] = nit
+        ctx.steps["largest_slack_1e-6"] = max(e["slack"] for e in kms)
+        ctx.steps["child_crashes"] = sum(1 for e in allsel if e["e"] == "Crash")
+        ctx.steps["point_sets"] = dict(grid=len(sets), grid_translated=sum(1 for e in sel_grid if e["e"] == "Points" and _is_aff(e)),
+                                       seeded=sum(1 for e in ev_rand if e["e"] == "Points" and not e.get("shifted")),
+                                       class_directed=sum(1 for e in sel_cls if e["e"] == "Points"), far_corner=sum(1 for e in sel_cor if e["e"] == "Points"))
         for e in ev_rand:
             if e["e"] == "Points" and len(e["X"]) <= 6:
                 ctx.sample(dict(e, what="seeded point set"), 2)
         for e in ev_rand:
             if e["e"] == "Sel" and e["method"] == "MaxDis" and 3 <= e["n"] <= 10:
-                ctx.sample(dict(e, what="selection returned by the library"), 4)
+                ctx.sample(dict(e, what="selection returned by the library"), 3)
         for e in ev_grid:
             if e["e"] == "Km" and e["k"] >= 2:
-                ctx.sample(dict(e, what="k-means result on a TLC-enumerated point set"), 5)
+                ctx.sample(dict(e, what="k-means result on a TLC-enumerated point set"), 4)
                 break
-        ctx.sample(dict(sets[len(sets) // 2], what="point set emitted by TLC"), 6)
-        ctx.cov["rule"] = ("a case is one recorded call keyed by (point set, routine, metric, size or k, initialiser, threads): every point set TLC enumerated x every size x both exact metrics "
-                           "for MaxDis/MaxDis_Fast/MDC (+ KMeansppCenters/KMeans on distinct points), and seeded integer point sets (3..80 x 1..6) x sampled sizes x three metrics x 1..8 threads; "
+        ctx.sample(dict(sets[len(sets) // 2], what="point set emitted by TLC"), 5)
+        for b in tlc.split_blocks(sel_cls):
+            if _is_aff(b[1]) and len(b[1]["X"]) <= 6 and max(abs(v) for v in b[1]["off"]) >= 100000:
+                km = _first(b, lambda e: e["e"] == "Km" and e["k"] >= 2)
+                if km:
+                    ctx.sample(dict(points=b[1], km=km, what="k-means on a translated / scaled point set (x, off, sexp as logged)"), 6)
+                    break
+        ctx.cov["rule"] = ("a case is one recorded call keyed by (point set incl. its offsets / scale / history step, routine, metric, size or k, initialiser, threads, reuse): every point set TLC "
+                           "enumerated x every size x both exact metrics for MaxDis/MaxDis_Fast/MDC (+ KMeansppCenters/KMeans on distinct points; a stride translated / scaled), seeded integer "
+                           "point sets (3..80 x 1..6) x sampled sizes x three metrics x 1..8 threads, class-directed sets (K1..K8) x every initialiser, and every replayed Lloyd run; "
                            "non-trivial = at least two selections / clusters")
-        ctx.note("conformance: %d + %d point sets, %d recorded calls, %d k-means runs (%d hit the iteration cap, %d with an empty cluster), %d child crashes"
-                 % (len(sets), ctx.steps["point_sets"]["seeded"], sum(1 for e in ev_grid + ev_rand if e["e"] in ("Sel", "Km", "KmTh")), len(kms),
-                    ctx.steps["kmeans_iteration_cap_reached"], ctx.steps["kmeans_runs_with_empty_cluster"], ctx.steps["child_crashes"]))
+        ctx.note("conformance: %d + %d + %d (+ %d far-corner) point sets, %d recorded calls, %d k-means runs (%d on translated / scaled data, %d hit the iteration cap, %d with an empty cluster), %d Lloyd iterations replayed, %d child crashes"
+                 % (len(sets), ctx.steps["point_sets"]["seeded"], ctx.steps["point_sets"]["class_directed"], ctx.steps["point_sets"]["far_corner"], sum(1 for e in allsel if e["e"] in ("Sel", "Km", "KmTh", "KmRe")), len(kms),
+                    ctx.steps["kmeans_runs_on_translated_or_scaled_data"], ctx.steps["kmeans_iteration_cap_reached"], ctx.steps["kmeans_runs_with_empty_cluster"], nit, ctx.steps["child_crashes"]))
 
         def replay_grid(pts, e):
-            return dict(kind="grid", X=pts["X"], distinct=pts["distinct"], event=e)
+            return dict(kind="grid", id=pts["id"], X=pts["X"], distinct=pts["distinct"], affine=1 if _is_aff(pts) else 0, event=e)
 
         def replay_rand(pts, e):
             return dict(kind="rand", seed=ctx.seed, idx=pts["id"], event=e)
-        _validate(ctx, ev_grid, san1, "trace_grid", replay_grid, P)
-        _validate(ctx, ev_rand, san2, "trace_rand", replay_rand, P)
-        # binding self-test: a recorded selection with its first two picks exchanged / a centroid sum off by one must be rejected
-        blk = next((b for b in tlc.split_blocks(ev_rand) if b[1]["e"] == "Points" and b[1]["exact"] == 1 and len(b[1]["X"]) >= 5
-                    and any(e["e"] == "Sel" and e["method"] == "MaxDis" and e["n"] >= 3 for e in b) and any(e["e"] == "Km" and e["k"] >= 2 for e in b)), None)
-        if blk is not None:
-            def corrupt_sel(ev):
-                for e in ev:
-                    if e["e"] == "Sel" and e["method"] == "MaxDis" and e["n"] >= 3:
-                        e["seq"][0], e["seq"][1] = e["seq"][1], e["seq"][0]
-                        return True
-                return False
-            trace.binding_selftest(ctx, "TraceSelect", "Trace_Select_prop.cfg", blk, corrupt_sel, "binding_selection")
 
-            def corrupt_km(ev):
-                for e in ev:
-                    if e["e"] == "Km" and e["k"] >= 2:
-                        e["cnum"][0][0] += 1
-                        return True
-                return False
-            trace.binding_selftest(ctx, "TraceSelect", "Trace_Select_prop.cfg", blk, corrupt_km, "binding_kmeans")
+        def replay_cls(pts, e):
+            return dict(kind="cls", seed=ctx.seed, idx=pts["id"], event=e)
+
+        def replay_cor(pts, e):
+            return dict(kind="corner", seed=ctx.seed, idx=pts["id"], event=e)
+        _validate(ctx, sel_grid, san1, "trace_grid", replay_grid, P)
+        _validate(ctx, sel_rand, san2, "trace_rand", replay_rand, P)
+        _validate(ctx, sel_cls, san3, "trace_cls", replay_cls, P)
+        _validate(ctx, sel_cor, san4, "trace_corner", replay_cor, max(1, P // 2))
+        _validate_lloyd(ctx, ll, "trace_lloyd", P)
+        if not ctx.violations:
+            _selftests(ctx, sel_rand, sel_cls, ll)
     finally:
+        bg.shutdown(wait=True)
         shutil.rmtree(rd, ignore_errors=True)
 
 
@@ -333,19 +743,25 @@ def replay(ctx, body):
     try:
         if case.get("kind") == "grid":
             fn = os.path.join(rd, "pts.txt")
-            open(fn, "w").write(_pts_line(0, case))
-            jobs = [[os.path.join(rd, "r.ndjson"), "grid", fn, body.get("seed", ctx.seed), 1, 1]]
+            pid = case.get("id", 0)
+            open(fn, "w").write(_pts_line(pid, case))
+            stride = -1 if case.get("affine") else 0        # -1: also run the translated / scaled copy of this point set
+            jobs = [[os.path.join(rd, "r.ndjson"), "grid", fn, body.get("seed", ctx.seed), 1, 1, stride]]
         elif case.get("kind") == "rand":
             jobs = [[os.path.join(rd, "r.ndjson"), "rand", case["seed"], case["idx"], 1]]
+        elif case.get("kind") in ("cls", "corner"):
+            jobs = [[os.path.join(rd, "r.ndjson"), case["kind"], case["seed"], case["idx"], 1]]
         else:
             return run(ctx)
         ev, san = _run_harness(exe, jobs, "replay")
-        _account(ctx, ev, "replay")
+        sel, ll = _split(ev)
+        _account(ctx, sel, "replay")
         for e in ev:
             if e["e"] == "Points":
                 ctx.sample(e)
         ctx.cov["rule"] = "replay of one recorded point set"
         # a one-point-set replay carries no model run: count the trace states only
-        _validate(ctx, ev, san, "replay", lambda pts, e: case, 1)
+        _validate(ctx, sel, san, "replay", lambda pts, e: case, 1)
+        _validate_lloyd(ctx, ll, "replay_lloyd", 1)
     finally:
         shutil.rmtree(rd, ignore_errors=True)
